@@ -382,19 +382,40 @@ def replay_for(fam, E, probs):
             exp = model.predict(forms, pos, off)[0]
         except Exception:
             exp = None
-    drv = ("# expression under test:  %s\n# context: %s   failing check: %s/%s\n# %s\n"
-           "# expected (value|obs|trace): %s\n"
-           "# This file runs on plain janet: it defines the tracer t, obs and id, then the program.\n"
+    hdr = ("# expression under test:  %s\n# context: %s   failing check: %s/%s\n# %s\n"
+           "# expected by the reference evaluator (value|obs|trace): %s\n"
+           "# Stand-alone: runs on plain janet.  The program text below is compiled form by form with `compile` in a\n"
+           "# fresh environment (tracer t, obs, id defined) and run in a fiber, exactly as the check's driver does;\n"
+           "# it prints obs values, the result or the error with its stack trace (line:column), and the trace of t.\n"
            % (model.rtext(E), ctx, oracle, comp, detail.replace("\n", " ")[:600], exp))
-    pre = ("(def- trace @[])\n(defn t [x] (array/push trace (string/format \"%j\" x)) x)\n"
-           "(defn obs [& xs] (printf \"obs: %j\" xs) :%obs)\n(defn id [x] x)\n"
-           "(defer (printf \"trace: %j\" trace)\n(def res (do\n")
-    post = "\n))\n(printf \"result: %j\" res))\n"
-    if ctx.startswith("top"):
-        body = "(upscope\n" + text + "\n)"
-    else:
-        body = text
-    return drv + pre + body + post
+    body = ("(def program ````\n" + text + "\n````)\n" + REPLAY_RUNNER)
+    return hdr + body
+
+
+REPLAY_RUNNER = """(def trace @[])
+(def env (make-env))
+(put env 't @{:value (fn t [x] (array/push trace (string/format "%q" x)) x)})
+(put env 'obs @{:value (fn obs [& xs] (printf "obs: %q" xs) :%obs)})
+(put env 'id @{:value (fn id [x] x)})
+(def p (parser/new))
+(parser/consume p program)
+(parser/eof p)
+(var res nil)
+(while (parser/has-more p)
+  (def form (parser/produce p))
+  (def f (compile form env "program"))
+  (if (function? f)
+    (do
+      (def fib (fiber/new f :e))
+      (fiber/setenv fib env)
+      (def v (resume fib))
+      (if (= (fiber/status fib) :error)
+        (do (printf "error: %q" v) (debug/stacktrace fib v "") (break))
+        (if (not= v :%obs) (set res v))))
+    (do (printf "compile error: %q" f) (break))))
+(printf "result: %q" res)
+(printf "trace: %q" trace)
+"""
 
 
 def main():
